@@ -762,3 +762,68 @@ V('c04-e-only-feed-command-forwarded', ['C04', 'C01'], [(S, """            retur
                 returnCommands = [cmd]
             else:
                 returnCommands = self._processNonMove(cmd, deltaE)""")])
+# ---------------------------------------------------------------- round 14 / 15 rules
+V('c11-flags-refreshed-after-raising-code', ['C11', 'C12'], [(P, """        self.clearRegionsAfterPrintFinishes = \\
+            self._settings.get_boolean(["clearRegionsAfterPrintFinishes"])
+
+        self.mayShrinkRegionsWhilePrinting = \\
+            self._settings.get_boolean(["mayShrinkRegionsWhilePrinting"])
+
+        self.state.g90InfluencesExtruder""", """        self.state.g90InfluencesExtruder"""), (P, """        self.loggingMode = self._settings.get(["loggingMode"])
+""", """        self.loggingMode = self._settings.get(["loggingMode"])
+
+        self.clearRegionsAfterPrintFinishes = \\
+            self._settings.get_boolean(["clearRegionsAfterPrintFinishes"])
+
+        self.mayShrinkRegionsWhilePrinting = \\
+            self._settings.get_boolean(["mayShrinkRegionsWhilePrinting"])
+""")])
+V('n-flags-swapped-order', ['C11', 'C12'], [(P, """        self.clearRegionsAfterPrintFinishes = \\
+            self._settings.get_boolean(["clearRegionsAfterPrintFinishes"])
+
+        self.mayShrinkRegionsWhilePrinting = \\
+            self._settings.get_boolean(["mayShrinkRegionsWhilePrinting"])
+""", """        self.mayShrinkRegionsWhilePrinting = \\
+            self._settings.get_boolean(["mayShrinkRegionsWhilePrinting"])
+
+        self.clearRegionsAfterPrintFinishes = \\
+            self._settings.get_boolean(["clearRegionsAfterPrintFinishes"])
+""")], neutral=True)
+V('c04-bare-g28-homes-extruder', ['C04', 'C08', 'C01', 'C05'], [(H, """            homeX = True
+            homeY = True
+            homeZ = True
+""", """            homeX = True
+            homeY = True
+            homeZ = True
+            position.E_AXIS.setHome()
+""")])
+V('c08-g21-resets-feed-rate', ['C08', 'C03'], [(H, """        self.state.setUnitMultiplier(1)
+""", """        self.state.setUnitMultiplier(1)
+        self.state.feedRate = 0
+""")])
+V('c20-handlers-configured-from-outside', ['C20'], [(P, """        self.loggingMode = self._settings.get(["loggingMode"])
+""", """        self.loggingMode = self._settings.get(["loggingMode"])
+        self.gcodeHandlers.gcodeParser = None
+""")])
+V('c07-sign-stripped-from-small-negatives', ['C07', 'C03'], [('CommonMixin.py', """    return text
+""", """    if (text.startswith("-0.0")):
+        text = text[1:]
+
+    return text
+""")])
+V('c17-inscribed-square-rounded-up', ['C17', 'C01'], [(CR, """        return self.r >= math.hypot(x - self.cx, y - self.cy)
+""", """        dx = abs(x - self.cx)
+        dy = abs(y - self.cy)
+        if ((dx > self.r) or (dy > self.r)):
+            return False
+        if ((dx <= self.r * 0.70711) and (dy <= self.r * 0.70711)):
+            return True
+        return self.r >= math.hypot(dx, dy)
+""")])
+V('n-bounding-box-quick-reject', ['C17', 'C01', 'C12'], [(CR, """        return self.r >= math.hypot(x - self.cx, y - self.cy)
+""", """        dx = abs(x - self.cx)
+        dy = abs(y - self.cy)
+        if ((dx > self.r) or (dy > self.r)):
+            return False
+        return self.r >= math.hypot(dx, dy)
+""")], neutral=True)
